@@ -52,7 +52,8 @@ def check(run):
     run.trusted = c05.TRUSTED + ["vt/gen/c06_api.py (Python ast): which attribute reads count as obligations (Load/Del on non-module "
                                  "receivers; getattr/hasattr with literal names are guarded reads and are not), which sources define names",
                                  "the fixed allow-list of builtin-type attributes in vt/gen/c06_api.py",
-                                 "CPU-time limit (ITIMER_VIRTUAL; 5 s quick / 10 s thorough per pass call) as the meaning of 'bounded time'",
+                                 "CPU-time limit (5 s quick / 10 s thorough per pass call; ITIMER_VIRTUAL wakes the check up, the verdict is taken on "
+                                 "the precise per-process CPU clock time.process_time()) as the meaning of 'bounded time'",
                                  "vt/gen/c06_nesting.py (Python ast) reading of TreeCleaner.__init__'s tables and of the shape of "
                                  "_mark_nodes/_filter_tree/_fix_nesting",
                                  "OCaml extraction of fix_nesting + ocaml/c06n/driver.ml parser/printer",
